@@ -36,7 +36,21 @@ func (g *G) filterFor(kind string, bits int, addrs []string) *model.Filter {
 		n := g.between(1, 2)
 		var args []string
 		for i := 0; i < n; i++ {
-			args = append(args, addrs[g.R.IntN(len(addrs))])
+			a := addrs[g.R.IntN(len(addrs))]
+			switch g.R.IntN(4) {
+			case 0:
+				// as a checksummed address is written: mixed case
+				b := []byte(a)
+				for k := 2; k < len(b); k++ {
+					if g.chance(50) && b[k] >= 'a' && b[k] <= 'f' {
+						b[k] -= 32
+					}
+				}
+				a = string(b)
+			case 1:
+				a = "0x" + strings.ToUpper(a[2:])
+			}
+			args = append(args, a)
 		}
 		return &model.Filter{Op: op, Arg: args}
 	case "string":
